@@ -8,13 +8,16 @@ package verifprog
 // expectation; specs/Dataflow.tla + ProgMon.tla are the reference and TLC is the judge.
 
 import (
+	"bytes"
 	"context"
 	"encoding/json"
 	"errors"
 	"fmt"
 	"io"
 	"io/ioutil"
+	"net/http"
 	"os"
+	"path"
 	osexec "os/exec"
 	"reflect"
 	"runtime"
@@ -28,6 +31,7 @@ import (
 
 	baseerrors "github.com/grailbio/base/errors"
 	"github.com/grailbio/base/retry"
+	"github.com/grailbio/bigmachine"
 	"github.com/grailbio/bigmachine/testsystem"
 	"github.com/grailbio/bigslice"
 	"github.com/grailbio/bigslice/exec"
@@ -81,6 +85,7 @@ type step struct {
 	Shards []int    `json:"shards,omitempty"` // cachedelete
 	Faults [][]interface{} `json:"faults,omitempty"` // faults: [kind, at] plans for the vfault file layer
 	Steps [][]step `json:"steps,omitempty"` // par: groups run concurrently, each group sequential
+	Kills []killPlan `json:"kills,omitempty"` // kills: machine kills at RPC boundaries (C02), counted from this step on
 }
 
 type scenario struct {
@@ -97,6 +102,8 @@ type scenario struct {
 	Steps       []step  `json:"steps"`
 	TimeoutS    int     `json:"timeout_s"`
 	Isolate     bool    `json:"isolate"` // run in a child process (a crash of the driver must not take the harness down)
+	Interpose   bool    `json:"interpose"` // bigmachine: count (and on request kill at) every RPC of the test system
+	Loss        bool    `json:"loss"`      // machines are killed during this scenario (recorded for the monitor)
 }
 
 // ---------------------------------------------------------------------------------------------
@@ -469,6 +476,7 @@ var (
 // running scenarios
 
 type runner struct {
+	killer *killer
 	sc   *scenario
 	sess *exec.Session
 	mu   sync.Mutex
@@ -635,6 +643,9 @@ func (r *runner) doStep(ctx context.Context, st *step, lane int) {
 		}
 		t, e, c := tapsJSON(getRec(rid))
 		ev["taps"], ev["eofs"], ev["calls"] = t, e, c
+		if r.killer != nil {
+			ev["rpc"], ev["kills_fired"] = r.killer.snapshot()
+		}
 		r.emit(ev)
 	case "scan":
 		r.mu.Lock()
@@ -662,6 +673,10 @@ func (r *runner) doStep(ctx context.Context, st *step, lane int) {
 			ev["panic"] = pan
 			ev["rows"] = [][]int{}
 		}
+		ev["ctxerr"] = ctx.Err() != nil
+		if r.killer != nil {
+			ev["rpc"], ev["kills_fired"] = r.killer.snapshot()
+		}
 		r.emit(ev)
 	case "discard":
 		r.mu.Lock()
@@ -677,6 +692,13 @@ func (r *runner) doStep(ctx context.Context, st *step, lane int) {
 		r.emit(vtr.Rec{"do": "discard-done", "res": st.Res, "lane": lane})
 	case "sleep":
 		time.Sleep(time.Duration(st.N) * time.Millisecond)
+	case "kills":
+		if r.killer == nil {
+			r.emit(vtr.Rec{"do": "kills", "lane": lane, "skipped": true})
+			return
+		}
+		prev, fired := r.killer.arm(st.Kills)
+		r.emit(vtr.Rec{"do": "kills", "lane": lane, "nkills": len(st.Kills), "rpc_before": prev, "fired_before": fired})
 	case "faults":
 		vfault.ClearPlans()
 		for _, f := range st.Faults {
@@ -735,6 +757,7 @@ func runScenario(sc *scenario) (rec vtr.Rec) {
 		sliceio.SpillBatchSize = sc.SpillBatch
 	}
 	var opts []exec.Option
+	var kl *killer
 	if sc.Exec == "bigmachine" {
 		sys := testsystem.New()
 		if sc.MachProcs > 0 {
@@ -747,6 +770,9 @@ func runScenario(sc *scenario) (rec vtr.Rec) {
 		if sc.MachComb {
 			opts = append(opts, exec.MachineCombiners)
 		}
+		if sc.Interpose {
+			kl = newKiller(sys)
+		}
 		if sc.MaxLoad > 0 {
 			opts = append(opts, exec.MaxLoad(sc.MaxLoad))
 		}
@@ -756,7 +782,8 @@ func runScenario(sc *scenario) (rec vtr.Rec) {
 	if sc.Parallelism > 0 {
 		opts = append(opts, exec.Parallelism(sc.Parallelism))
 	}
-	r := &runner{sc: sc, res: map[string]*exec.Result{}}
+	r := &runner{sc: sc, res: map[string]*exec.Result{}, killer: kl}
+	rec["loss"] = sc.Loss
 	r.sess = exec.Start(opts...)
 	to := sc.TimeoutS
 	if to <= 0 {
@@ -805,7 +832,160 @@ func runScenario(sc *scenario) (rec vtr.Rec) {
 	rec["events"] = append([]vtr.Rec{}, r.evs...)
 	r.mu.Unlock()
 	rec["hung"] = hung
+	if kl != nil {
+		counts, _ := kl.arm(nil)
+		rec["rpc"] = counts
+		rec["killlog"] = kl.getLog()
+	}
 	return
+}
+
+// ---------------------------------------------------------------------------------------------
+// RPC interposer of the test system (C02): every RPC of the session (driver to worker, worker to worker,
+// keepalives) goes through the test system's shared http.Client. The interposer counts the calls per method and,
+// where a plan says so, kills the machine serving the call before it, after it (reply delivered), after it with
+// the reply dropped, or in the middle of a streamed reply.
+
+type killPlan struct {
+	Method  string `json:"method"`
+	Ordinal int    `json:"ordinal"` // 1-based, counted per method since the plan was armed
+	Phase   string `json:"phase"`   // before | after | afterlost | mid
+	Bytes   int    `json:"bytes"`   // mid: reply bytes delivered before the kill
+	fired   bool
+}
+
+type killer struct {
+	mu     sync.Mutex
+	sys    *testsystem.System
+	base   http.RoundTripper
+	plans  []killPlan
+	counts map[string]int
+	nfired int
+	log    []vtr.Rec
+}
+
+func newKiller(sys *testsystem.System) *killer {
+	k := &killer{sys: sys, counts: map[string]int{}, log: []vtr.Rec{}}
+	c := sys.HTTPClient()
+	k.base = c.Transport
+	c.Transport = k
+	return k
+}
+
+// arm installs new plans and resets the counters; returns the counters and number of kills of the previous arming.
+func (k *killer) arm(plans []killPlan) (map[string]int, int) {
+	k.mu.Lock()
+	defer k.mu.Unlock()
+	prev, fired := k.counts, k.nfired
+	k.counts = map[string]int{}
+	k.nfired = 0
+	k.plans = append([]killPlan{}, plans...)
+	return prev, fired
+}
+
+func (k *killer) snapshot() (map[string]int, int) {
+	k.mu.Lock()
+	defer k.mu.Unlock()
+	c := map[string]int{}
+	for m, n := range k.counts {
+		c[m] = n
+	}
+	return c, k.nfired
+}
+
+func (k *killer) getLog() []vtr.Rec {
+	k.mu.Lock()
+	defer k.mu.Unlock()
+	return append([]vtr.Rec{}, k.log...)
+}
+
+func (k *killer) kill(addr string, pl *killPlan) {
+	killed := false
+	for i := 0; i < k.sys.N(); i++ {
+		func() {
+			defer func() { recover() }() // Index panics if a machine went away meanwhile
+			if m := k.sys.Index(i); m.Addr == addr {
+				killed = k.sys.Kill(m) || killed
+			}
+		}()
+	}
+	k.mu.Lock()
+	k.nfired++
+	k.log = append(k.log, vtr.Rec{"method": pl.Method, "ordinal": pl.Ordinal, "phase": pl.Phase, "killed": killed})
+	k.mu.Unlock()
+}
+
+type midBody struct {
+	io.ReadCloser
+	left int
+	hit  func()
+}
+
+func (b *midBody) Read(p []byte) (int, error) {
+	if b.left > 0 && len(p) > b.left {
+		p = p[:b.left]
+	}
+	n, err := b.ReadCloser.Read(p)
+	if b.left > 0 {
+		b.left -= n
+		if b.left <= 0 || err != nil {
+			b.left = 0
+			b.hit()
+			b.left = -1
+		}
+	} else if b.left == 0 {
+		b.hit()
+		b.left = -1
+	}
+	return n, err
+}
+
+func (k *killer) RoundTrip(req *http.Request) (*http.Response, error) {
+	method := path.Base(req.URL.Path)
+	addr := req.URL.Scheme + "://" + req.URL.Host
+	var pl *killPlan
+	k.mu.Lock()
+	k.counts[method]++
+	n := k.counts[method]
+	for i := range k.plans {
+		if p := &k.plans[i]; !p.fired && p.Method == method && p.Ordinal == n {
+			p.fired = true
+			cp := *p
+			pl = &cp
+			break
+		}
+	}
+	k.mu.Unlock()
+	if pl == nil {
+		return k.base.RoundTrip(req)
+	}
+	switch pl.Phase {
+	case "before":
+		k.kill(addr, pl)
+		return k.base.RoundTrip(req)
+	case "mid":
+		resp, err := k.base.RoundTrip(req)
+		if err != nil {
+			k.kill(addr, pl)
+			return resp, err
+		}
+		resp.Body = &midBody{ReadCloser: resp.Body, left: pl.Bytes, hit: func() { k.kill(addr, pl) }}
+		return resp, nil
+	default: // after, afterlost: the call runs to completion on the machine first
+		resp, err := k.base.RoundTrip(req)
+		if err != nil {
+			k.kill(addr, pl)
+			return resp, err
+		}
+		body, rerr := ioutil.ReadAll(resp.Body)
+		resp.Body.Close()
+		k.kill(addr, pl)
+		if pl.Phase == "afterlost" || rerr != nil {
+			return nil, fmt.Errorf("verif: connection to %s lost", addr)
+		}
+		resp.Body = ioutil.NopCloser(bytes.NewReader(body))
+		return resp, nil
+	}
 }
 
 func init() {
@@ -882,7 +1062,7 @@ func runIsolated(sc *scenario) vtr.Rec {
 		tail = tail[:1500]
 	}
 	return vtr.Rec{"id": sc.ID, "exec": sc.Exec, "parallelism": sc.Parallelism, "maxload": sc.MaxLoad, "machcomb": sc.MachComb,
-		"machprocs": sc.MachProcs, "chunk": sc.Chunk, "canary": sc.Canary, "events": []vtr.Rec{}, "hung": false,
+		"machprocs": sc.MachProcs, "chunk": sc.Chunk, "canary": sc.Canary, "events": []vtr.Rec{}, "hung": false, "loss": sc.Loss,
 		"crashed": true, "crash": fmt.Sprintf("%v: %s", runErr, tail)}
 }
 
@@ -921,6 +1101,12 @@ func TestVerifProg(t *testing.T) {
 	}
 	if v := vtr.EnvInt("VERIF_SPILLBATCH", 0); v > 0 {
 		sliceio.SpillBatchSize = v
+	}
+	if vtr.EnvInt("VERIF_FASTBOOT", 0) > 0 {
+		// bigmachine gives a machine minutes to come up (constants of the dependency); scaled down so that the
+		// loss of a machine during boot is noticed, and the machine replaced, within a step's deadline (C02)
+		bigmachine.BootPingTimeout, bigmachine.BootPingRpcTimeout = 6*time.Second, 2*time.Second
+		bigmachine.BootCallTimeout, bigmachine.BootCallRpcTimeout = 6*time.Second, 2*time.Second
 	}
 	if vtr.EnvInt("VERIF_NOSHUFFLEREADERS", 0) > 0 {
 		exec.DoShuffleReaders = false
